@@ -4,6 +4,10 @@ import random
 from elab import passcheck
 
 
+def _reraise():
+    raise
+
+
 def _call(task):
     import traceback
     import importlib
@@ -11,7 +15,8 @@ def _call(task):
     try:
         return fn(**task['kw'])
     except Exception:
-        return dict(failed=True, crashed=True, observed=traceback.format_exc()[-900:], expected='-')
+        from vlib.guard import guarded
+        return guarded(_reraise)
 
 
 def cover_tasks(tier, seed):
